@@ -198,6 +198,15 @@ def base_single(rng):
                                bypass_fraction=0.05), 'a1'
 
 
+def base_adiabatic(rng):
+    """No inter-assembly gap: nothing of the core geometry is built, so the
+    reader is the only guard for the duct-against-pitch relations."""
+    t = bundle_type(2)
+    return scenarios.make_core(rng, {'a1': t}, [(1, 1, 'a1')],
+                               [scenarios.flow_for(t)], gap_model='none',
+                               bypass_fraction=0.0), 'a1'
+
+
 def base_rich(rng):
     t = scenarios.add_regions(
         bundle_type(3, nd=2), L,
@@ -278,6 +287,22 @@ def targeted(rng, base, tier):
             * r.uniform(0.9, 1.0)
     add('duct-not-smaller-than-pitch', duct_ge_pitch,
         ['DuctAgainstPitchOrWalls'])
+    def first_over_pitch(factor):
+        def fn(c, t, r):
+            # the list need not be ordered: the larger value first, and the
+            # pitch equal to it or between the two
+            f = t['duct_ftf']
+            t['duct_ftf'] = [f[1], f[0]] + f[2:]
+            if len(c['types']) == 1 and len(f) == 2:
+                c['pitch'] = f[1] * factor
+            else:
+                c['pitch'] = max(max(tt['duct_ftf'])
+                                 for tt in c['types'].values()) * factor
+        return fn
+    for nm, fac in (('equal', 1.0), ('just-over', 0.9995), ('over', 0.985),
+                    ('far-over', 0.93)):
+        add('duct-nonlast-entry-' + nm + '-pitch', first_over_pitch(fac),
+            ['DuctAgainstPitchOrWalls'])
     add('duct-wall-zero-thickness',
         lambda c, t, r: t.__setitem__('duct_ftf', [t['duct_ftf'][1]] * 2
                                       + t['duct_ftf'][2:]),
